@@ -710,3 +710,208 @@ pub fn reply_adu(case: &Case, request_frame: &[u8]) -> Vec<u8> {
         v
     }
 }
+
+// ---------------------------------------------------------------------------------------------
+// helpers of the multi-call subcommands `cseq` and `cconn`
+// ---------------------------------------------------------------------------------------------
+
+/// A call token `K,U,S,C,V[,style]` (style f = Channel future (default), c = CallbackSession,
+/// x = FfiChannel; list values separated by ';'), parsed by re-joining the fields into the line
+/// format of `parse_case`. `tail`: the 7th field of cresp (`raw:..`) if the caller has one.
+pub fn parse_call(f: char, token: &str, tail: Option<&str>) -> Result<Case, String> {
+    let p: Vec<&str> = token.split(',').collect();
+    if p.len() != 5 && p.len() != 6 {
+        return Err(format!("call {token:?}: expected 5 or 6 comma separated fields"));
+    }
+    if p.iter().any(|x| x.is_empty()) {
+        return Err(format!("call {token:?}: empty field"));
+    }
+    let style = match p.get(5).copied().unwrap_or("f") {
+        "f" => "",
+        "c" => "c",
+        "x" => "x",
+        other => return Err(format!("call {token:?}: bad style {other:?}")),
+    };
+    let v = p[4].replace(';', ",");
+    let mut line = format!("{f}{style} {} {} {} {} {v}", p[0], p[1], p[2], p[3]);
+    if let Some(t) = tail {
+        line.push(' ');
+        line.push_str(t);
+    }
+    parse_case(&line, tail.is_some())
+}
+
+/// number of items the request addresses (kinds 1..4: the count; 15/16: the number of values)
+fn item_count(case: &Case) -> usize {
+    match case.kind {
+        1..=4 => case.c as u16 as usize,
+        15 => coil_values(case).len(),
+        16 => register_values(case).len(),
+        _ => 1,
+    }
+}
+
+/// length of the request frame a correct encoder writes for this case
+pub fn expected_request_len(case: &Case) -> usize {
+    let n = item_count(case);
+    let pdu = match case.kind {
+        15 => 6 + (n + 7) / 8,
+        16 => 6 + 2 * n,
+        _ => 5,
+    };
+    if case.rtu {
+        pdu + 3
+    } else {
+        pdu + 7
+    }
+}
+
+/// The PDU of the genuine reply: kinds 1,2: byte count ceil(count/8) and that many bytes 0xA5;
+/// kinds 3,4: byte count 2*count and `count` registers 0x1234; kinds 5,6,15,16: the echo.
+pub fn genuine_pdu(case: &Case) -> Vec<u8> {
+    let fc = case.kind;
+    let n = item_count(case);
+    let s = case.start.to_be_bytes();
+    match fc {
+        1 | 2 => {
+            let bytes = (n + 7) / 8;
+            let mut v = vec![fc, bytes as u8];
+            v.resize(2 + bytes, 0xA5);
+            v
+        }
+        3 | 4 => {
+            let mut v = Vec::with_capacity(2 + 2 * n);
+            v.push(fc);
+            v.push((2 * n) as u8);
+            for _ in 0..n {
+                v.extend_from_slice(&[0x12, 0x34]);
+            }
+            v
+        }
+        5 => vec![fc, s[0], s[1], if case.c == 1 { 0xFF } else { 0x00 }, 0x00],
+        6 => {
+            let x = (case.c as u16).to_be_bytes();
+            vec![fc, s[0], s[1], x[0], x[1]]
+        }
+        _ => {
+            let x = (n as u16).to_be_bytes();
+            vec![fc, s[0], s[1], x[0], x[1]]
+        }
+    }
+}
+
+/// `[fc | 0x80, code]`
+pub fn exception_pdu(case: &Case, code: u8) -> Vec<u8> {
+    vec![case.kind | 0x80, code]
+}
+
+/// the ADU around `pdu`, framed exactly as `reply_adu` does (TCP: the given transaction id; RTU: CRC)
+pub fn frame_adu(case: &Case, tx: u16, pdu: &[u8]) -> Vec<u8> {
+    let mut c = case.clone();
+    c.pdu = pdu.to_vec();
+    reply_adu(&c, &tx.to_be_bytes())
+}
+
+/// number of writes logged so far
+pub fn writes_so_far(wire: &Wire) -> usize {
+    wire.0.lock().unwrap().out.len()
+}
+
+/// the bytes written since write number `from`, concatenated
+pub fn written_since(wire: &Wire, from: usize) -> Vec<u8> {
+    let g = wire.0.lock().unwrap();
+    g.out.get(from..).map(|w| w.concat()).unwrap_or_default()
+}
+
+/// drop what is left of the write script of an earlier call (unless a write is parked on it)
+pub fn clear_write_script(wire: &Wire) {
+    let mut g = wire.0.lock().unwrap();
+    if !g.write_blocked {
+        g.write_script.clear();
+    }
+}
+
+/// how far a submitted request got without the clock advancing
+#[derive(Clone, Copy, Debug, PartialEq, Eq)]
+pub enum Sent {
+    /// a complete request frame is on the wire (TCP: per its MBAP length field; RTU: the expected length)
+    Complete,
+    /// the write is parked at a `Block` step
+    Blocked,
+    /// the request has already completed
+    Finished,
+    /// none of these within 200 yields (e.g. queued behind a request that hangs)
+    Unknown,
+}
+
+/// Yield (the paused clock does not advance) until the request's frame is completely on the wire,
+/// or its write is blocked, or the request has completed. `from`: `writes_so_far` before the submit.
+pub async fn wait_request_sent(wire: &Wire, from: usize, case: &Case, handle: &JoinHandle<Done>) -> Sent {
+    let expected = expected_request_len(case);
+    for _ in 0..200 {
+        tokio::task::yield_now().await;
+        {
+            let g = wire.0.lock().unwrap();
+            let writes = g.out.get(from..).unwrap_or(&[]);
+            let n: usize = writes.iter().map(|w| w.len()).sum();
+            let complete = if case.rtu {
+                n >= expected
+            } else if n >= 6 {
+                let mut head = [0u8; 6];
+                for (i, b) in writes.iter().flatten().take(6).enumerate() {
+                    head[i] = *b;
+                }
+                n >= 6 + u16::from_be_bytes([head[4], head[5]]) as usize
+            } else {
+                false
+            };
+            if complete {
+                return Sent::Complete;
+            }
+            if g.write_blocked {
+                return Sent::Blocked;
+            }
+        }
+        if handle.is_finished() {
+            return Sent::Finished;
+        }
+    }
+    Sent::Unknown
+}
+
+/// Await the result of a submitted request for at most 5 s of virtual time and format it:
+/// `OK ..` / `OKX ..` / `ERR <name>` / `HUNG` / `PANIC`; with `rejected` (nothing reached the wire
+/// and the request completed at once) `REJECTED <token>` as cresp prints it.
+pub async fn call_result(mut handle: JoinHandle<Done>, rejected: bool) -> String {
+    let res = match tokio::time::timeout(Duration::from_secs(5), &mut handle).await {
+        Ok(r) => r,
+        Err(_) => {
+            handle.abort();
+            let _ = handle.await;
+            return "HUNG".to_string();
+        }
+    };
+    match res {
+        Err(e) if e.is_panic() => "PANIC".to_string(),
+        Err(_) => if rejected { "REJECTED CANCELLED" } else { "ERR CANCELLED" }.to_string(),
+        Ok(d) => match done_result(d) {
+            Ok(_) if rejected => "REJECTED OK?".to_string(),
+            Ok(o) => match catch_unwind(AssertUnwindSafe(|| format_outcome(&o))) {
+                Ok(s) => s,
+                Err(_) => "PANIC".to_string(),
+            },
+            Err(token) if token == "HUNG" => "HUNG".to_string(),
+            Err(token) if rejected => format!("REJECTED {token}"),
+            Err(token) => format!("ERR {token}"),
+        },
+    }
+}
+
+/// Submit a call: `Err(result)` if the request could not even be constructed
+pub fn submit_case(channel: &Channel, case: &Case) -> Result<JoinHandle<Done>, String> {
+    match build(case) {
+        Build::Ready(p) => Ok(submit(channel.clone(), param(case), p, case.style)),
+        Build::Rejected(name) => Err(format!("REJECTED {name}")),
+        Build::Panic => Err("PANIC".to_string()),
+    }
+}
